@@ -1,4 +1,127 @@
-(** C08 — stub while the proofs are being written. *)
-From SKN Require Import Base.Util Model.Dendrogram Model.Cuts.
-Theorem c08_stub : True. Proof. exact I. Qed.
-Print Assumptions c08_stub.
+(** C08 — Cuts, aggregation and quality scores agree with the tree they are given.
+    Only statements closed by [exact], their assumptions, and non-vacuity examples.
+
+    Vocabulary (Model/Dendrogram.v, Model/Cuts.v): a dendrogram is a list of rows (left, right, height, size);
+    [valid n D] is the boolean validity check (n-1 rows, each merging two distinct live ids, size = leaves below,
+    last size n); [leaves n D k] is the leaf set below id k; [hmono n D]: no merge is lower than one of its
+    children; [cut_input D0 ret] is the dendrogram actually cut ([reorder_dendrogram D0] when return_dendrogram
+    is set and the heights are not sorted, D0 otherwise); [argsort_ok] is the contract of np.argsort (a permutation
+    that sorts) — the theorems hold for every oracle meeting it, whatever its tie-breaks. *)
+From SKN Require Import Base.Util Model.Dendrogram Model.Cuts Proofs.CutsProofs.
+From Coq Require Import Permutation.
+
+(** 1. Every cluster of a cut is exactly the leaf set of one subtree; the labels used are exactly 0..k-1 and
+    every leaf carries one label (so the clusters partition the leaves). *)
+Theorem cut_clusters_are_subtrees argsort n D0 D nc th sort ret labels od :
+  cut_input D0 ret = Ok D -> valid n D = true -> argsort_ok argsort ->
+  cut_straight argsort D0 nc th sort ret = Ok (labels, od) ->
+  exists ids, subtree_partition n D labels ids /\ (sort = true -> sizes_sorted labels (length ids)).
+Proof. exact (cut_straight_subtrees argsort n D0 D nc th sort ret labels od). Qed.
+Print Assumptions cut_clusters_are_subtrees.
+
+Theorem cut_balanced_clusters_are_subtrees argsort n D m sort ret labels od :
+  valid n D = true -> argsort_ok argsort ->
+  cut_balanced argsort D m sort ret = Ok (labels, od) ->
+  exists ids, subtree_partition n D labels ids /\ (sort = true -> sizes_sorted labels (length ids)) /\
+              (forall l, cluster_size labels l <= m).
+Proof. exact (cut_balanced_subtrees argsort n D m sort ret labels od). Qed.
+Print Assumptions cut_balanced_clusters_are_subtrees.
+
+(** 2. With sort_clusters the labels are in non-increasing order of cluster size. *)
+Theorem cut_labels_sorted_by_size argsort n D0 D nc th ret labels od :
+  cut_input D0 ret = Ok D -> valid n D = true -> argsort_ok argsort ->
+  cut_straight argsort D0 nc th true ret = Ok (labels, od) ->
+  sizes_sorted labels (num_clusters labels).
+Proof. exact (cut_straight_sorted argsort n D0 D nc th ret labels od). Qed.
+Print Assumptions cut_labels_sorted_by_size.
+
+Theorem cut_balanced_labels_sorted_by_size argsort n D m ret labels od :
+  valid n D = true -> argsort_ok argsort ->
+  cut_balanced argsort D m true ret = Ok (labels, od) ->
+  sizes_sorted labels (num_clusters labels).
+Proof. exact (cut_balanced_sorted argsort n D m ret labels od). Qed.
+Print Assumptions cut_balanced_labels_sorted_by_size.
+
+(** 3. cut_straight returns at least n_clusters clusters (threshold = None) ... *)
+Theorem cut_straight_count argsort n D0 D nc sort ret labels od :
+  cut_input D0 ret = Ok D -> valid n D = true -> argsort_ok argsort ->
+  cut_straight argsort D0 (Some nc) None sort ret = Ok (labels, od) ->
+  nc <= num_clusters labels.
+Proof. exact (cut_straight_count_ge argsort n D0 D nc sort ret labels od). Qed.
+Print Assumptions cut_straight_count.
+
+(** ... exactly n_clusters when the heights are distinct (and no merge is lower than its children) ... *)
+Theorem cut_straight_count_distinct argsort n D0 D nc sort ret labels od :
+  cut_input D0 ret = Ok D -> valid n D = true -> hmono n D = true -> distinct_heights D ->
+  argsort_ok argsort ->
+  cut_straight argsort D0 (Some nc) None sort ret = Ok (labels, od) ->
+  num_clusters labels = nc.
+Proof. exact (CutsProofs.cut_straight_count_distinct argsort n D0 D nc sort ret labels od). Qed.
+Print Assumptions cut_straight_count_distinct.
+
+(** ... and what the code guarantees in general: with cut = max(sorted heights [n - n_clusters], threshold),
+    exactly the merges STRICTLY below the cut are applied: their leaves share one label, and the number of
+    clusters is n minus the number of such merges. *)
+Theorem cut_straight_applies_merges_below_cut argsort n D0 D nc th sort ret labels od cut :
+  cut_input D0 ret = Ok D -> valid n D = true -> hmono n D = true -> argsort_ok argsort ->
+  cut_height D nc th = Ok cut ->
+  cut_straight argsort D0 nc th sort ret = Ok (labels, od) ->
+  num_clusters labels + below cut D = n /\
+  (forall t r, nth_error D t = Some r -> (r_height r < cut)%Q ->
+     forall u v, In u (leaves n D (n + t)) -> In v (leaves n D (n + t)) -> nth u labels 0 = nth v labels 0).
+Proof. exact (cut_straight_exact argsort n D0 D nc th sort ret labels od cut). Qed.
+Print Assumptions cut_straight_applies_merges_below_cut.
+
+Theorem cut_straight_threshold_applied argsort n D0 D nc theta sort ret labels od :
+  cut_input D0 ret = Ok D -> valid n D = true -> hmono n D = true -> argsort_ok argsort ->
+  cut_straight argsort D0 nc (Some theta) sort ret = Ok (labels, od) ->
+  forall t r, nth_error D t = Some r -> (r_height r < theta)%Q ->
+    forall u v, In u (leaves n D (n + t)) -> In v (leaves n D (n + t)) -> nth u labels 0 = nth v labels 0.
+Proof. exact (cut_straight_threshold argsort n D0 D nc theta sort ret labels od). Qed.
+Print Assumptions cut_straight_threshold_applied.
+
+(** Admissible calls return a labelling — with n_clusters = 1 excluded by hypothesis (defect D6) ... *)
+Theorem cut_straight_returns argsort n D nc th sort :
+  valid n D = true -> 2 <= n ->
+  match nc with Some k => 2 <= k <= n | None => True end ->
+  exists labels, cut_straight argsort D nc th sort false = Ok (labels, None).
+Proof. exact (cut_straight_total argsort n D nc th sort). Qed.
+Print Assumptions cut_straight_returns.
+
+(** ... because the current code raises IndexError for n_clusters = 1 on EVERY dendrogram
+    ([np.sort(heights)[n - 1]] on an array of n - 1 entries), although one cluster is admissible. *)
+Theorem cut_straight_one_cluster_refuted :
+  (forall argsort D th sort, cut_straight argsort D (Some 1) th sort false = Err IndexError) /\
+  exists D, valid 3 D = true /\ check_n_clusters 1 3 = Ok tt /\
+            cut_straight stable_argsort D (Some 1) None true false = Err IndexError.
+Proof.
+  split; [exact cut_straight_one_cluster_fails|].
+  exists [(0, 1, 1%Q, 2); (3, 2, 2%Q, 3)]. vm_compute. auto.
+Qed.
+Print Assumptions cut_straight_one_cluster_refuted.
+
+(** 4. cut_balanced never returns a cluster larger than max_cluster_size. *)
+Theorem cut_balanced_cap argsort n D m sort ret labels od :
+  valid n D = true -> argsort_ok argsort ->
+  cut_balanced argsort D m sort ret = Ok (labels, od) ->
+  forall l, cluster_size labels l <= m.
+Proof.
+  intros Hv Ha Hc. destruct (cut_balanced_subtrees argsort n D m sort ret labels od Hv Ha Hc) as [ids [_ [_ H]]]. exact H.
+Qed.
+Print Assumptions cut_balanced_cap.
+
+(** The stable argsort meets the oracle contract (the hypotheses above are satisfiable). *)
+Theorem argsort_contract_satisfiable : argsort_ok stable_argsort.
+Proof. exact stable_argsort_ok. Qed.
+Print Assumptions argsort_contract_satisfiable.
+
+(** Non-vacuity: a valid 5-leaf dendrogram with unsorted rows and a tie, cut in three ways. *)
+Example c08_nonvacuous :
+  let D := [(0, 1, 2%Q, 2); (2, 3, 1%Q, 2); (5, 4, 3%Q, 3); (6, 7, 4%Q, 5)] in
+  valid 5 D = true /\ hmono 5 D = true /\
+  cut_input D false = Ok D /\
+  cut_straight stable_argsort D (Some 3) None true false = Ok ([0; 0; 1; 1; 2], None) /\
+  cut_straight stable_argsort D None (Some (5 # 2)%Q) true false = Ok ([0; 0; 1; 1; 2], None) /\
+  cut_balanced stable_argsort D 3 true false = Ok ([0; 0; 1; 1; 0], None) /\
+  leaves 5 D 7 = [0; 1; 4].
+Proof. vm_compute. repeat split; reflexivity. Qed.
